@@ -30,7 +30,20 @@ pub fn lending_config(with_plain: bool, rng: &mut Rng) -> Config {
 
 pub fn gen_c13(base_seed: u64, batch: &str, run: u64, rng: &mut Rng) -> Scenario {
     let big = batch == "long-chains";
-    let cfg = lending_config(false, rng);
+    let mut cfg = lending_config(false, rng);
+    // one instance ends inside a by-value provided method whose default body hands `self` on to a
+    // by-value required method: what it lent (itself or through its helper) stays until that method's
+    // answer function has run
+    let by_value_end = !big && rng.chance(1, 4);
+    if by_value_end {
+        cfg.clauses.push(ClauseSpec {
+            m: M::V2Req,
+            form: Form::EachCall,
+            patterns: vec![PatternSpec { pred: 0xf, has_matcher: true, macro_form: false, segs: vec![Seg { resp: Resp::Answers(Prog::default()), quant: Quant::Unq }] }],
+        });
+        cfg.default_progs.retain(|(m, _)| *m != M::V2Prov);
+        cfg.default_progs.push((M::V2Prov, Prog { calls: vec![(M::V2Req, 0, 0)] }));
+    }
     let n_threads = if rng.chance(1, 4) { 1 } else { rng.range(2, if big { 3 } else { 8 }) };
     let n_clones = rng.usize(3);
     let mut threads: Vec<Vec<Op>> = vec![vec![]; n_threads];
@@ -98,11 +111,20 @@ pub fn gen_c13(base_seed: u64, batch: &str, run: u64, rng: &mut Rng) -> Scenario
     if original_first {
         threads[0].push(Op::Drop { slot: 0 });
     }
+    let by_value = |slot: u8| Op::Call { slot, m: M::V2Prov, x: 0, y: 0, catch: true, fault: None, keep: false };
     for s in order {
         // now and then the owner of a clone is a frame that a (caught) user panic unwinds
-        threads[0].push(if rng.chance(1, 4) { Op::UnwindDrop { slot: s } } else { Op::Drop { slot: s } });
+        threads[0].push(if by_value_end && rng.chance(1, 2) {
+            by_value(s)
+        } else if rng.chance(1, 4) {
+            Op::UnwindDrop { slot: s }
+        } else {
+            Op::Drop { slot: s }
+        });
     }
-    if !original_first {
+    if !original_first && by_value_end && rng.chance(1, 2) {
+        threads[0].push(by_value(0));
+    } else if !original_first {
         // the original ends by drop, verify() or report(): each releases what it lent, once
         threads[0].push(match rng.weighted(&[45, 27, 18, 10]) {
             0 => Op::Drop { slot: 0 },
@@ -182,6 +204,19 @@ pub fn check_c13(scn: &Scenario) -> Checked {
             match op {
                 Op::Drop { slot } | Op::Verify { slot } | Op::Report { slot } | Op::UnwindDrop { slot } if !matches!(o.result, OpResult::Skipped(_)) => {
                     teardown.push((*slot, o.start_step, o.end_step))
+                }
+                Op::Call { slot, m, .. } if m.info().recv == Recv::Val && !matches!(o.result, OpResult::Skipped(_)) => {
+                    // the instance ends inside this call: not before the answer function of the by-value
+                    // required method has started (if it never got that far, anywhere inside the call)
+                    let answer_started = log
+                        .progs
+                        .iter()
+                        .filter(|p| matches!(p.kind, ProgKind::Answer { .. }))
+                        .filter(|p| p.call.and_then(|c| log.calls.get(c as usize)).map(|c| c.op == (o.thread, o.index)).unwrap_or(false))
+                        .map(|p| p.step)
+                        .min();
+                    *stats.probes.entry("instance_ended_inside_a_by_value_default_body".into()).or_default() += 1;
+                    teardown.push((*slot, answer_started.unwrap_or(o.start_step), o.end_step))
                 }
                 _ => {}
             }
@@ -326,6 +361,12 @@ pub fn gen_c09(base_seed: u64, batch: &str, run: u64, rng: &mut Rng) -> Scenario
         p.calls.clear();
     }
     cfg.specials = vec![Special::LendClone];
+    // clones that an answer function takes from the instance it is handed (the delegation helper, when
+    // the call came through a default body): they count like any other clone
+    let stash = rng.chance(1, 3);
+    if stash {
+        cfg.specials.push(Special::StashClone);
+    }
     // sometimes the exit code of report() is itself mocked (mock-std): the instance is then verified
     // when it is dropped at the end of report()
     if cfg!(feature = "stdworld") && rng.chance(1, 6) {
@@ -357,7 +398,11 @@ pub fn gen_c09(base_seed: u64, batch: &str, run: u64, rng: &mut Rng) -> Scenario
             0 => {
                 if (next_slot as usize) < crate::world::N_SLOTS - 1 {
                     let src = pick_slot(rng, &live);
-                    threads[t].push(Op::Clone { src, dst: next_slot });
+                    if stash && rng.chance(1, 2) {
+                        threads[t].push(Op::CloneInside { src, dst: next_slot, via_default: rng.chance(2, 3) });
+                    } else {
+                        threads[t].push(Op::Clone { src, dst: next_slot });
+                    }
                     live.push(next_slot);
                     next_slot += 1;
                 }
@@ -472,7 +517,7 @@ pub fn check_c09(scn: &Scenario) -> Checked {
             continue;
         }
         match op_of(o) {
-            Some(Op::Clone { dst, .. }) if matches!(o.result, OpResult::Done) => {
+            Some(Op::Clone { dst, .. }) | Some(Op::CloneInside { dst, .. }) if matches!(o.result, OpResult::Done) => {
                 insts.push(Inst { created_start: o.start_step, created_end: o.end_step, gone: None });
                 events.push((o.end_step, 0, SlotEv::Put { slot: dst, inst: insts.len() - 1 }));
             }
@@ -531,6 +576,12 @@ pub fn check_c09(scn: &Scenario) -> Checked {
             None => o.original,
         };
         match (&op, is_original) {
+            (Op::CloneInside { via_default, .. }, _) => {
+                *stats.probes.entry(format!("clone_taken_inside_an_answer_function{}", if *via_default { "_through_a_default_body" } else { "" })).or_default() += 1;
+                if !matches!(o.result, OpResult::Done) {
+                    violations.push(v("C09", "clone-never-panics", "clone-inside", format!("a call whose answer function clones the mock: {:?}", o.result)));
+                }
+            }
             (Op::Clone { .. }, _) => {
                 if !matches!(o.result, OpResult::Done) {
                     violations.push(v("C09", "clone-never-panics", "clone", format!("cloning panicked: {:?}", o.result)));
